@@ -42,6 +42,7 @@ pub fn new_box(area: &str) -> Option<Box<dyn VerifBox>> {
 /// Names of all adapters.
 pub fn areas() -> Vec<&'static str> {
     vec![
+        "c03",
         "c04",
         "c10",
         "c14",
@@ -49,7 +50,6 @@ pub fn areas() -> Vec<&'static str> {
         "c18",
         "c19",
     ]
-    vec!["c17", "c03"]
 }
 
 /// Decode a hex string.
